@@ -27,13 +27,14 @@ OPT = [f for f in model.ALL_FIELDS if f != "resolution"]
 def required(tier):
     return ["all_fields_present_and_absent", "missing_resolution_raises", "value_contains_other_field_line", "value_starts_or_ends_with_quote",
             "value_with_inner_trailing_blank", "via_full_chart", "cross_field_probe", "resolution_first", "resolution_last", "resolution_zero_decoded",
-            "value_not_unicode_normalised", "concurrent_stage", "by_path_non_ascii_straddling_2^k", "integer_above_2^53"]
+            "value_not_unicode_normalised", "concurrent_stage", "by_path_non_ascii_straddling_2^k", "integer_above_2^53", "whole_generated_chart"]
 
 
 def shards(tier, seed):
     n = 16 if tier == "quick" else 48
     out = [{"name": f"md-{i}", "kind": "random", "count": 500 if tier == "quick" else 12000} for i in range(n)]
     out.append({"name": "subsets", "kind": "subsets"})
+    out += [{"name": f"charts-{i}", "kind": "charts", "count": 60 if tier == "quick" else 1500} for i in range(2 if tier == "quick" else 8)]
     return out
 
 
@@ -122,6 +123,13 @@ def missing_resolution(rec, rng, lines):
 
 def run_shard(shard, rec, tier, seed):
     harness.setup()
+    if shard["kind"] == "charts":
+        from vmon import mcheck
+
+        # [Song] next to fully populated other sections (tracks of every instrument, events, busy sync): no section's content is the
+        # metadata's business
+        mcheck.whole_charts(rec, ("C10",), seed, ID, shard["name"], shard["count"])
+        return harness.finish(rec)
     if shard["kind"] == "subsets":
         # all 2^k subsets of k=7 optional fields (a different window of fields per bit pattern block), canonical values
         rng = harness.rng_for(seed, ID, "subsets", 0)
